@@ -12,22 +12,70 @@ pub struct Pair {
     b: u8,
 }
 
+/// An entry whose `==` / ordering look at the key only (the way a transposition-table entry is
+/// compared by depth): equality is coarser than identity, so values are compared by `bits()`.
+#[derive(Clone, Copy, Debug, Default)]
+pub struct Coarse {
+    key: i16,
+    payload: u16,
+}
+impl PartialEq for Coarse {
+    fn eq(&self, o: &Coarse) -> bool {
+        self.key == o.key
+    }
+}
+impl PartialOrd for Coarse {
+    fn partial_cmp(&self, o: &Coarse) -> Option<std::cmp::Ordering> {
+        self.key.partial_cmp(&o.key)
+    }
+}
+
 pub trait Val: Copy + PartialEq + PartialOrd + std::fmt::Debug {
     fn of(v: u32) -> Self;
+    /// identity of the value (what was written must come back bit for bit)
+    fn bits(&self) -> u64;
 }
 impl Val for u8 {
     fn of(v: u32) -> u8 {
         v as u8
+    }
+    fn bits(&self) -> u64 {
+        *self as u64
     }
 }
 impl Val for u32 {
     fn of(v: u32) -> u32 {
         v
     }
+    fn bits(&self) -> u64 {
+        *self as u64
+    }
 }
 impl Val for Pair {
     fn of(v: u32) -> Pair {
         Pair { a: v as i16, b: (v >> 16) as u8 }
+    }
+    fn bits(&self) -> u64 {
+        (self.a as u16 as u64) | (self.b as u64) << 16
+    }
+}
+impl Val for Coarse {
+    fn of(v: u32) -> Coarse {
+        // small keys (so that predicates fire and refuse), payload from the upper bits; key 0 with
+        // a non-zero payload is a value that `==` cannot tell from the all-zero one
+        Coarse { key: (v % 8) as i16, payload: ((v >> 3) as u16) | 0x8000 }
+    }
+    fn bits(&self) -> u64 {
+        (self.key as u16 as u64) | (self.payload as u64) << 16
+    }
+}
+impl Val for f64 {
+    fn of(v: u32) -> f64 {
+        // includes -0.0 (v = 0), which == cannot tell from the all-zero bit pattern +0.0
+        if v % 8 == 0 { -0.0 } else { (v % 8) as f64 }
+    }
+    fn bits(&self) -> u64 {
+        self.to_bits()
     }
 }
 
@@ -61,7 +109,7 @@ fn pred<T: Val>(kind: u8, arg: u32) -> impl Fn(T) -> bool {
 
 impl Program {
     pub fn to_json(&self) -> Value {
-        let ty = ["u8", "u32", "Pair{i16,u8}"][self.ty as usize % 3];
+        let ty = ["u8", "u32", "Pair{i16,u8}", "Coarse{key,payload}(== on key only)", "f64"][self.ty as usize % 5];
         json!({
             "size_log2": self.log2,
             "entry_type": ty,
@@ -81,6 +129,8 @@ impl Program {
         let ty = match v["entry_type"].as_str()? {
             "u8" => 0,
             "u32" => 1,
+            "f64" => 4,
+            t if t.starts_with("Coarse") => 3,
             _ => 2,
         };
         let mut ops = vec![];
@@ -156,7 +206,7 @@ fn run_typed<T: Val>(ctx: &mut Ctx, p: &Program) -> Result<(), Violation> {
         let h = *touched.last().unwrap();
         let want = if model[slot(h)].0 == h { Some(model[slot(h)].1) } else { None };
         let got = table.get(h);
-        if got != want {
+        if got.map(|x| x.bits()) != want.map(|x| x.bits()) {
             return ctx.fail(
                 "cache:get",
                 format!("after op #{} get({:#x}) = {:?}, model says {:?} (size {})", i, h, got, want, size),
@@ -174,7 +224,7 @@ fn run_typed<T: Val>(ctx: &mut Ctx, p: &Program) -> Result<(), Violation> {
     for h in probes {
         let want = if model[slot(h)].0 == h { Some(model[slot(h)].1) } else { None };
         let got = table.get(h);
-        if got != want {
+        if got.map(|x| x.bits()) != want.map(|x| x.bits()) {
             return ctx.fail("cache:get", format!("final scan: get({:#x}) = {:?}, model says {:?} (size {})", h, got, want, size), case());
         }
     }
@@ -195,10 +245,12 @@ pub fn check_program(ctx: &mut Ctx, p: &Program) -> Result<(), Violation> {
     ctx.set_case(p.to_json());
     ctx.class(&format!("size:2^{}", p.log2));
     ctx.sample(|| p.to_json());
-    match p.ty % 3 {
+    match p.ty % 5 {
         0 => run_typed::<u8>(ctx, p),
         1 => run_typed::<u32>(ctx, p),
-        _ => run_typed::<Pair>(ctx, p),
+        2 => run_typed::<Pair>(ctx, p),
+        3 => run_typed::<Coarse>(ctx, p),
+        _ => run_typed::<f64>(ctx, p),
     }
 }
 
@@ -250,7 +302,7 @@ pub fn program_strategy(max_log2: u8, max_ops: usize) -> impl Strategy<Value = P
     // allocate twice per program and get one program in sixteen
     let small = max_log2.min(10);
     let log2s = prop_oneof![15 => 0u8..=small, 1 => small..=max_log2];
-    (log2s, 0u8..3, prop_oneof![Just(0u32), any::<u32>()], proptest::collection::vec(op, 0..max_ops)).prop_map(|(log2, ty, default, raw)| {
+    (log2s, 0u8..5, prop_oneof![Just(0u32), any::<u32>()], proptest::collection::vec(op, 0..max_ops)).prop_map(|(log2, ty, default, raw)| {
         let size = 1u64 << log2;
         // a small pool of slots so that collisions are the norm
         let ops = raw
@@ -368,7 +420,7 @@ pub fn run(cfg: &Cfg) -> i32 {
     engine::finish(
         report,
         EvidenceSpec {
-            rule: "cases = programs of 0-400 add / replace_if / get operations over tables of size 2^0..2^16 (2^20 thorough) with entry types u8, u32 and a Copy struct; hashes are drawn to collide (same slot with different high bits, multiples of the size, bits above 32 or bit 63 only, 0, u64::MAX) and predicates (old<arg, old==arg, true, false) over a small value domain; after every operation and in a final scan of all touched hashes, stored hashes and slot probes, get() is compared with a vector model (slot = hash mod size, initial content (0, default)); plus a few tables of 2^21 and 2^22 entries driven with hashes that agree in their low 8-22 bits against a sparse model; plus CacheTable::new on 90+ non-power-of-two sizes (must panic) and on 2^0..2^20 (must not). evaluations = programs + sizes. Non-trivial = program with at least one collision overwrite and one refused replace_if; distinct = program fingerprints.".into(),
+            rule: "cases = programs of 0-400 add / replace_if / get operations over tables of size 2^0..2^16 (2^20 thorough) with entry types u8, u32, a Copy struct, a struct whose == / ordering look at one field only, and f64 (default -0.0 among the values): values are compared bit for bit; hashes are drawn to collide (same slot with different high bits, multiples of the size, bits above 32 or bit 63 only, 0, u64::MAX) and predicates (old<arg, old==arg, true, false) over a small value domain; after every operation and in a final scan of all touched hashes, stored hashes and slot probes, get() is compared with a vector model (slot = hash mod size, initial content (0, default)); plus a few tables of 2^21 and 2^22 entries driven with hashes that agree in their low 8-22 bits against a sparse model; plus CacheTable::new on 90+ non-power-of-two sizes (must panic) and on 2^0..2^20 (must not). evaluations = programs + sizes. Non-trivial = program with at least one collision overwrite and one refused replace_if; distinct = program fingerprints.".into(),
             assumptions: vec!["out-of-bounds accesses are observed through the unsafe-precondition checks of get_unchecked in the `checked` profile (abort -> fatal-signal handler -> violation) and through the libFuzzer+ASan target cache_prog in the thorough tier".into()],
             trusted_base: vec!["harness/src/props/c19.rs vector model".into(), "proptest 1.11".into()],
             exhaustive: None,
